@@ -36,31 +36,86 @@ func ruleR43(c *Ctx) {
 			evINC
 			evGROW
 		)
-		ev := func(b *cfg.Block, i int, nd ast.Node) []int {
+		var evFor func(u *FuncUnit, childParam string, depth int) func(b *cfg.Block, i int, nd ast.Node) []int
+		// helperEvents: a helper of the same size class that is handed the child (insertChild(b,
+		// child)) counts as what every one of its paths does
+		helperEvents := func(call *ast.CallExpr, childParam string, depth int) []int {
+			cu := m.calleeUnit(call)
+			if cu == nil || cu.Lit != nil || cu.Decl == nil || cu.Body == nil || cu.Recv != k.Struct.Obj().Name() || depth > 2 || cu.Type.Params == nil {
+				return nil
+			}
+			var names []string
+			for _, f := range cu.Type.Params.List {
+				for _, nm := range f.Names {
+					names = append(names, nm.Name)
+				}
+			}
+			inner := ""
+			for i, a := range call.Args {
+				if id, ok := ast.Unparen(a).(*ast.Ident); ok && id.Name == childParam && i < len(names) {
+					inner = names[i]
+				}
+			}
+			if inner == "" {
+				return nil
+			}
+			hg := m.cfgOf(cu)
+			hres := runPaths(hg, []string{"STORE", "FANOUT+", "GROW"}, evFor(cu, inner, depth+1), nil)
+			var first *[3]int
+			for _, hb := range hg.Blocks {
+				for _, hs := range hres.exits[hb] {
+					if isPanicBlock(info, hb) {
+						continue
+					}
+					cur := [3]int{int(hs.n[0]), int(hs.n[1]), int(hs.n[2])}
+					if first == nil {
+						first = &cur
+					} else if *first != cur {
+						return nil
+					}
+				}
+			}
+			if first == nil {
+				return nil
+			}
 			var out []int
-			switch y := nd.(type) {
-			case *ast.IncDecStmt:
-				if y.Tok == token.INC && strings.HasSuffix(exprText(y.X), "childrenLen") {
-					out = append(out, evINC)
-				}
-			case *ast.AssignStmt:
-				if len(y.Lhs) == 1 && len(y.Rhs) == 1 && strings.Contains(exprText(y.Lhs[0]), "children[") {
-					if id, ok := ast.Unparen(y.Rhs[0]).(*ast.Ident); ok && id.Name == childParam {
-						out = append(out, evSTORE)
-					}
-				}
-				if (y.Tok == token.ADD_ASSIGN) && strings.HasSuffix(exprText(y.Lhs[0]), "childrenLen") {
-					out = append(out, evINC)
-				}
-			case *ast.ExprStmt:
-				if call, ok := y.X.(*ast.CallExpr); ok {
-					if sel, ok := call.Fun.(*ast.SelectorExpr); ok && sel.Sel.Name == "addChild" {
-						out = append(out, evGROW)
-					}
+			for e, cnt := range first {
+				for j := 0; j < cnt; j++ {
+					out = append(out, e)
 				}
 			}
 			return out
 		}
+		evFor = func(u *FuncUnit, childParam string, depth int) func(b *cfg.Block, i int, nd ast.Node) []int {
+			return func(b *cfg.Block, i int, nd ast.Node) []int {
+				var out []int
+				switch y := nd.(type) {
+				case *ast.IncDecStmt:
+					if y.Tok == token.INC && strings.HasSuffix(exprText(y.X), "childrenLen") {
+						out = append(out, evINC)
+					}
+				case *ast.AssignStmt:
+					if len(y.Lhs) == 1 && len(y.Rhs) == 1 && strings.Contains(exprText(y.Lhs[0]), "children[") {
+						if id, ok := ast.Unparen(y.Rhs[0]).(*ast.Ident); ok && id.Name == childParam {
+							out = append(out, evSTORE)
+						}
+					}
+					if (y.Tok == token.ADD_ASSIGN) && strings.HasSuffix(exprText(y.Lhs[0]), "childrenLen") {
+						out = append(out, evINC)
+					}
+				case *ast.ExprStmt:
+					if call, ok := y.X.(*ast.CallExpr); ok {
+						if sel, ok := call.Fun.(*ast.SelectorExpr); ok && sel.Sel.Name == "addChild" {
+							out = append(out, evGROW)
+						} else {
+							out = append(out, helperEvents(call, childParam, depth)...)
+						}
+					}
+				}
+				return out
+			}
+		}
+		ev := evFor(u, childParam, 0)
 		g := m.cfgOf(u)
 		res := runPaths(g, []string{"STORE", "FANOUT+", "GROW"}, ev, nil)
 		bad := false
